@@ -6,7 +6,9 @@ From GL Require Import Req.ReqModel.
 Import ListNotations.
 Open Scope Z_scope.
 
-Inductive case := CHist (h : list op) (o : list obs).
+Inductive case :=
+| CHist (h : list op) (o : list obs)
+| CInit (i : list iop) (h : list op) (o : list obs).   (* SkipOpenLibs: host opens libraries itself *)
 
 Fixpoint list_eqb {A} (eq : A -> A -> bool) (a b : list A) : bool :=
   match a, b with
@@ -37,6 +39,7 @@ Definition err_eqb (a b : err) : bool :=
   | EFail n, EFail m => n =? m
   | EConflict n, EConflict m => n =? m
   | EModGo, EModGo => true
+  | ENoPackage, ENoPackage => true
   | EOther, EOther => true
   | _, _ => false
   end.
@@ -105,20 +108,28 @@ Fixpoint canon_list (m : cmap) (l : list obs) : list obs :=
    harness never emits, so such a case is reported *)
 Definition FUEL : nat := 40.
 
-Definition check_impl (c : case) : bool :=
+(* observations of an initialisation sequence followed by a history; the history needs the package
+   library open (the generators guarantee it; otherwise the case is reported) *)
+Definition run_init (runf : nat -> state -> list op -> state * list obs) (i : list iop) (h : list op)
+  : option (list obs) :=
+  let '((s, b), o1) := irun (init, false) i in
+  if b then Some (o1 ++ snd (runf FUEL s h)) else None.
+
+Definition check_with (runf : nat -> state -> list op -> state * list obs) (c : case) : bool :=
   match c with
-  | CHist h o => list_eqb obs_eqb (canon_list [] (snd (run FUEL init h))) o
+  | CHist h o => list_eqb obs_eqb (canon_list [] (snd (runf FUEL init h))) o
+  | CInit i h o =>
+    match run_init runf i h with
+    | Some l => list_eqb obs_eqb (canon_list [] l) o
+    | None => false
+    end
   end.
+
+Definition check_impl : case -> bool := check_with run.
 
 (* the property evaluated on the observed behaviour: the observations are those of the Lua 5.1
    reference semantics (ll_require / luaI_openlib) on the same history *)
-Definition check_spec (c : case) : bool :=
-  match c with
-  | CHist h o => list_eqb obs_eqb (canon_list [] (snd (run51 FUEL init h))) o
-  end.
+Definition check_spec : case -> bool := check_with run51.
 
-(* the two repaired defects, on the pre-fix transcription (used by ReqFacts and the examples) *)
-Definition check_old (c : case) : bool :=
-  match c with
-  | CHist h o => list_eqb obs_eqb (canon_list [] (snd (run_old FUEL init h))) o
-  end.
+(* the two repaired defects, on the pre-fix transcription (used by the examples) *)
+Definition check_old : case -> bool := check_with run_old.
